@@ -82,6 +82,14 @@ Section Pipeline.
     let b := LZ4_block level c in le_bytes 4 (lenZ b) ++ b.
   Definition legacy_output (level : Z) (content : list Z) : list Z :=
     le_bytes 4 LEGACY_MAGICNUMBER ++ concat (map (legacy_block level) (chunks_of LEGACY_BLOCKSIZE content)).
+
+  (* ---- what `lz4 [options] file` writes: dispatch of lz4cli.c main() / LZ4IO_compressFilename_extRess.
+     [mt] = LZ4IO_MULTITHREAD build; [s] = parsed options; [fileSize] = UTIL_getOpenFileSize of the source
+     (0 when unknown: pipe); [dict] = content LZ4IO_createDict loaded for -D ([] without -D). ---- *)
+  Definition cli_compress (mt : bool) (s : cli_state) (fileSize : Z) (dict content : list Z) : list Z :=
+    if c_legacy s then legacy_output (c_level s) content
+    else if mt then mt_output (prefs_of s fileSize) dict content
+    else st_output (prefs_of s fileSize) (io_blockSize (c_prefs s)) dict content.
 End Pipeline.
 
 (* ======================= layouts (executable, no library bytes involved) ======================= *)
